@@ -148,6 +148,10 @@ func (h *Handler) ServeHTTP(response http.ResponseWriter, request *http.Request)
 	if err = request.Body.Close(); err != nil {
 		h.onError(response, request, err)
 	}
+	if len(data) > h.Service.MaxRequestLength {
+		response.WriteHeader(http.StatusRequestEntityTooLarge)
+		return
+	}
 	serviceContext := h.getServiceContext(response, request)
 	ctx := core.WithContext(request.Context(), serviceContext)
 	result, err := h.Service.Handle(ctx, data)
@@ -280,6 +284,10 @@ func (h *Handler) ServeFastHTTP(ctx *fasthttp.RequestCtx) {
 	}
 	serviceContext := h.getFastHTTPServiceContext(ctx)
 	body := ctx.Request.Body()
+	if len(body) > h.Service.MaxRequestLength {
+		ctx.SetStatusCode(fasthttp.StatusRequestEntityTooLarge)
+		return
+	}
 	request := make([]byte, len(body))
 	copy(request, body)
 	result, err := h.Service.Handle(core.WithContext(context.Background(), serviceContext), request)
